@@ -29,6 +29,8 @@ import Rend.Props.C14
 import Rend.Proofs.KeyLocal
 import Rend.Proofs.SerialMR
 import Rend.Proofs.ChunkedSerial
+import Rend.Proofs.ChunkedSerial2
+import Rend.Proofs.ChunkedSerial3
 
 namespace Rend.Props.C03
 open Rend
@@ -266,6 +268,41 @@ theorem C03_serializable_chunked (now bits : Nat) (cmds : Nat → Cmd) (keys : N
         (fun o => Conc.TState.done o.1 o.2) :=
   Conc.serializable_chunked_obs now (chunkedThreads bits cmds keys) hk
     (fun i j h => by simp only [chunkedThreads] at h ⊢; rw [h]) w sched c' hex hquiet
+
+/-- Connections on a deployment with a chunked L1 in front of L2 (main and batch port). -/
+def chunkedThreads2 (bits : Nat) (ports : Nat → Port) (cmds : Nat → Cmd) (keys : Nat → Bytes) : Nat → Conc.ChThread2 :=
+  fun i => { port := ports i, cmd := cmds i, key := keys i, stripe := stripeOf bits (keys i) }
+
+/-- **Serializability with a chunked L1 in front of L2** (memproxy --chunked --l2-enabled): main
+    port = L1L2, batch port = L1L2Batch, both over the chunking handler on L1 and the pass-through
+    handler on L2, exclusive stripe locks, EVERY set of client keys.  Footprints are per tier
+    (`Proofs/SerialFootT.lean`): client key `k` owns `(L2, k)` and `(L1, k-meta)`, `(L1, k-0)`, …;
+    every backend request of a single-key command stays inside (`portStepC_footT`: the handler's
+    requests carry their tier, `Proofs/ChunkedTier.lean`), and footprints of different client keys
+    are disjoint whatever the keys look like (`footT_disjoint`: the L2 entry `a-0` of client key
+    `a-0` and chunk 0 of client key `a` are in different stores).  Hence for every admitted
+    schedule that ends with nobody inside a critical section both backends hold what running the
+    commands whole, one after another in lock-acquisition order, leaves, and the commands, in that
+    order, returned and emitted exactly what that sequential run does. -/
+theorem C03_serializable_chunked_two_tier (now bits : Nat) (ports : Nat → Port) (cmds : Nat → Cmd) (keys : Nat → Bytes)
+    (hk : ∀ i, cmdKey (cmds i) = some (keys i))
+    (w : World) (sched : List Conc.Step) (c' : Conc.Conf (HRes Unit))
+    (hex : Conc.ExecT now (fun i => (chunkedThreads2 bits ports cmds keys i).toT now) (Conc.Conf.init w) sched c')
+    (hquiet : ∀ i p evs, c'.ts i ≠ .running p evs) :
+    c'.w = Conc.seqEndT now (fun i => (chunkedThreads2 bits ports cmds keys i).toT now) w (Conc.acqOrder sched) ∧
+    (Conc.acqOrder sched).map c'.ts =
+      (Conc.seqObsT now (fun i => (chunkedThreads2 bits ports cmds keys i).toT now) w (Conc.acqOrder sched)).map
+        (fun o => Conc.TState.done o.1 o.2) :=
+  Conc.serializable_chunked2 now (chunkedThreads2 bits ports cmds keys) hk
+    (fun i j h => by simp only [chunkedThreads2] at h ⊢; rw [h]) w sched c' hex hquiet
+
+/-- Non-vacuity: client keys `a` and `a-0` (the second has the form of chunk 0 of the first) have
+    disjoint footprints — the theorem covers them — while their tier-agnostic footprints meet. -/
+example : (∀ l, Conc.footT [97] l → ¬ Conc.footT (Chunked.chunkKey [97] 0) l) ∧
+    Conc.foot2 [97] (Chunked.chunkKey [97] 0) ∧ Conc.foot2 (Chunked.chunkKey [97] 0) (Chunked.chunkKey [97] 0) := by
+  refine ⟨fun l h h' => ?_, Or.inr (Or.inr ⟨0, rfl⟩), Or.inl rfl⟩
+  have := Conc.footT_disjoint _ _ l h h'
+  exact absurd (congrArg List.length this) (by simp [Chunked.chunkKey])
 
 /-- Non-vacuity (chunked): `set a` and `delete a` — the first connection's acquisition is admitted,
     the second one cannot enter while the first is inside; a connection on another stripe can. -/
